@@ -340,19 +340,7 @@ fn run(ctx: &mut Ctx, si: usize, case: u64) {
             ctx.count("walker-runs");
             ctx.sample(|| format!("{} ({} bytes)", input.what, input.bytes.len()));
             let salt = ctx.rng.next_u64();
-            let data = &input.bytes[..];
-            let n = data.len() as u64;
-            let mut s = Sink::new(n, true, salt);
-            let r = guard(|| walk_file::<AnyEndian>(data, &mut s));
-            finish_walk(ctx, r, &s, &input.what, data);
-            let w = data.len().min(if small { 96 } else { 500 });
-            let mut s = Sink::new(w as u64, true, salt);
-            let class = if salt & 1 == 0 { Class::ELF32 } else { Class::ELF64 };
-            let r = guard(|| walk_standalone(AnyEndian::Big, class, &data[..w], &mut s));
-            finish_walk(ctx, r, &s, &format!("stand-alone parsers over the first {w} bytes of {}", input.what), &data[..w]);
-            if s.calls > 1 {
-                ctx.nontrivial_bytes(data);
-            }
+            walk_one(ctx, &input.bytes, &input.what, salt, if small { 96 } else { 500 });
         }
         _ => {
             // the calibrated worst case at the property's own size limit
@@ -368,6 +356,25 @@ fn run(ctx: &mut Ctx, si: usize, case: u64) {
                 _ => ver_case(ctx, BigEndian, enc, &v),
             });
         }
+    }
+}
+
+/// One walk of the file accessors and of the stand-alone parsers under step budgets and item bounds.
+pub fn walk_one(ctx: &mut Ctx, data: &[u8], what: &str, salt: u64, window: usize) {
+    let n = data.len() as u64;
+    let mut s = Sink::new(n, true, salt);
+    let r = guard(|| walk_file::<AnyEndian>(data, &mut s));
+    finish_walk(ctx, r, &s, what, data);
+    let mut s = Sink::new(n, true, salt);
+    let r = if salt & 1 == 0 { guard(|| walk_file::<LittleEndian>(data, &mut s)) } else { guard(|| walk_file::<BigEndian>(data, &mut s)) };
+    finish_walk(ctx, r, &s, what, data);
+    let w = data.len().min(window);
+    let mut s = Sink::new(w as u64, true, salt);
+    let class = if salt & 2 == 0 { Class::ELF32 } else { Class::ELF64 };
+    let r = guard(|| walk_standalone(AnyEndian::Big, class, &data[..w], &mut s));
+    finish_walk(ctx, r, &s, &format!("stand-alone parsers over the first {w} bytes of {what}"), &data[..w]);
+    if s.calls > 1 {
+        ctx.nontrivial_bytes(data);
     }
 }
 
